@@ -166,7 +166,8 @@ class VGen:
             ks = self.keys(ids, r.choice([1, 3, 5, 8]))
             rows = [tuple(list(k) + [r.choice([True, False, False, None])]) for k in ks]
             r.shuffle(rows)
-            env['DS_1'] = {'ids': list(ids), 'meas': [('Me_1', 'Boolean')], 'rows': rows}
+            bname = 'bool_var' if r.random() < 0.8 else 'Me_1'
+            env['DS_1'] = {'ids': list(ids), 'meas': [(bname, 'Boolean')], 'rows': rows}
             with_imb = r.random() < 0.8
             if with_imb:
                 # the imbalance operand covers the datapoints of the Boolean operand only partly, sometimes
@@ -182,7 +183,8 @@ class VGen:
         alt = {'inner-join': '(check %s 1 %s %s)' % (hdr, b_sx, i_sx)} if i_sx != '_' else {}
         return {'kind': 'check', 'env': env, 'vtl': vtl, 'sx': sx, 'alt': alt, 'ops': ['check'], 'flat': form == 'cmp2_flat', 'depth': 1,
                 'meta': {'op': 'check', 'form': form, 'output': output.strip() or 'default', 'imbalance': i_sx != '_',
-                         'imbalance_partial': imb_missing, 'nrules': 0, 'mode': '-'},
+                         'imbalance_partial': imb_missing, 'nrules': 0, 'mode': '-',
+                         'bool_measure': env['DS_1']['meas'][0][0] if form == 'bool_imb' else 'bool_var'},
                 'ids': ids, 'meas': [(m, '') for m in ['bool_var', 'imbalance', 'errorcode', 'errorlevel']]}
 
     # ------------------------------------------------------------------ check_datapoint
@@ -212,9 +214,10 @@ class VGen:
         # signature: the components the rules may use, some under an alias
         sig = [c for c in comps if r.random() < 0.85] or [comps[-1]]
         alias = {}
-        for n, _ in sig:
-            if r.random() < 0.3:
-                alias[n] = 'X' + n.replace('_', '')
+        if r.random() < 0.25:
+            for n, _ in sig:
+                if r.random() < 0.4:
+                    alias[n] = 'X' + n.replace('_', '')
         sigtype = 'variable' if (alias or r.random() < 0.8) else 'valuedomain'
         rules_vtl, rules_sx = [], []
         nwhen = 0
@@ -278,14 +281,14 @@ class VGen:
         for i in range(n):
             cands = pool[i + 1:]
             k = min(len(cands), r.choice([1, 2, 2, 3]))
-            right = [(r.random() < 0.3, it) for it in r.sample(cands, k)]
+            right = [(r.random() < (0.3 if j else 0.04), it) for j, it in enumerate(r.sample(cands, k))]
             cmpop = ('=', 'eq') if (for_hierarchy and r.random() < 0.85) or r.random() < 0.6 else r.choice([c for c in CMP if c[1] not in ('eq', 'ne')])
             rules.append({'left': defs[i], 'cmp': cmpop, 'right': right, 'rank': i})
         # extra comparison rules, possibly on an item that an `=` rule already defines
         for _ in range(r.choice([0, 0, 1]) if len(rules) < 5 else 0):
             i = r.randrange(n)
             cands = pool[i + 1:]
-            right = [(r.random() < 0.3, it) for it in r.sample(cands, min(len(cands), r.choice([1, 2])))]
+            right = [(r.random() < (0.3 if j else 0.04), it) for j, it in enumerate(r.sample(cands, min(len(cands), r.choice([1, 2]))))]
             rules.append({'left': defs[i], 'cmp': r.choice([c for c in CMP if c[1] not in ('eq', 'ne')]), 'right': right, 'rank': i})
         # `=` rules must define distinct items; signatures must be distinct (identification after the engine's sort)
         seen, out = set(), []
@@ -361,7 +364,8 @@ class VGen:
             kind = 'hier'
         meta.update({'nrules': len(rules), 'named': named, 'when_rules': sum(1 for x in rules if x['cond']),
                      'non_eq_rules': sum(1 for x in rules if x['cmp'][1] != 'eq'),
-                     'dup_left': len(rules) - len({x['left'] for x in rules})})
+                     'dup_left': len(rules) - len({x['left'] for x in rules}),
+                     'leading_sign': any(x['right'] and x['right'][0][0] for x in rules)})
         return {'kind': kind, 'env': env, 'vtl': vtl, 'sx': sx, 'alt': alt, 'ops': [op], 'flat': False, 'depth': 1, 'meta': meta,
                 'rules': rules, 'named': named, 'mode_sx': mode_sx, 'ids': ids, 'meas': []}
 
